@@ -404,7 +404,13 @@ def r_keep_key(F, V):
         if b is None:
             continue
         n += 1
-        bad = [i for i, t in b.calls() if (callee_path(t) or "") in ("core::mem::replace", "core::ptr::write", "raw::Bucket::write")]
+        bad = [i for i, t in b.calls() if (callee_path(t) or "") in ("core::mem::replace", "core::mem::swap", "core::ptr::write", "core::ptr::replace", "raw::Bucket::write")]
+        # a plain assignment through the found bucket (`bucket.as_mut().0 = value`) overwrites just the same
+        for i, k, st in b.stmts():
+            if st["k"] == "assign" and any(e["k"] == "deref" for e in st["p"].get("proj", [])):
+                r_, path_ = deep_root(b, st["p"])
+                if any(x in (".as_mut", ".as_ptr") for x in path_):
+                    bad.append(i)
         if bad:
             R.violation("set::HashSet::%s|keeps-old" % m, b, "HashSet::%s overwrites an existing element (must keep the old one)" % m, line=line_of(b, bb=bad[0]))
         else:
